@@ -212,13 +212,13 @@ class Type4Tag(nfc.tag.Tag):
 
         def _read_binary(self, offset, size):
             (p1, p2) = pack(">H", offset)
-            max_data = min(self._max_le, size)
+            max_data = min(self._max_le, size, 256)
             log.debug("read_binary from %d to %d", offset, offset + max_data)
             return self.tag.send_apdu(0, 0xB0, p1, p2, mrl=max_data)
 
         def _update_binary(self, offset, data):
             (p1, p2) = pack(">H", offset)
-            max_data = min(self._max_lc, len(data))
+            max_data = min(self._max_lc, len(data), 255)
             log.debug("update_binary from %d to %d", offset, offset + max_data)
             self.tag.send_apdu(0, 0xD6, p1, p2, data[:max_data])
             return max_data
@@ -319,7 +319,7 @@ class Type4Tag(nfc.tag.Tag):
 
             lfmt = ">I" if self._nlen_size == 4 else ">H"
             nlen = bytearray(pack(lfmt, len(data)))
-            if len(nlen) + len(data) <= self._max_lc:
+            if len(nlen) + len(data) <= min(self._max_lc, 255):
                 data = bytearray(nlen) + data
                 nlen = None
             else:
